@@ -41,4 +41,13 @@ MUTANTS = [
         order = 'ASC' if '*' in specifier else 'DESC'
         if ':' not in specifier:
             specifier += ':*'""")]},
+    {'name': 'lexicons-strips-specifier', 'expect': 'C08-R4',
+     'edits': [E(C, """    try:
+        w = Wordnet(lang=lang, lexicon=lexicon)
+    except wn.Error:
+        return []""", """    try:
+        lexicon = lexicon.lower() if lexicon else lexicon
+        w = Wordnet(lang=lang, lexicon=lexicon)
+    except wn.Error:
+        return []""")]},
 ]
